@@ -16,13 +16,15 @@ from .. import par, tlc, zenv
 from ..interpose import Interposer
 
 LEVEL = "model_checking"
-REGEX = {"daily": r"^(?P<y>\d{4})/(?P<date>\d{8})\.zo$", "done": r"^.*_done\.zo$", "any": r"^.*$", "proj": r"^proj_(?P<name>\w+)\.zo$"}
+REGEX = {"daily": r"^(?P<y>\d{4})/(?P<date>\d{8})\.zo$", "done": r"^.*_done\.zo$", "any": r"^.*$", "proj": r"^proj_(?P<name>\w+)\.zo$",
+         "tail": r"\d{4}/\d{8}\.zo$"}   # no leading ^: must still match from the start of the relative path
 ZOT = {
     "daily": "# template for daily pages\n# second header line\n\n## Day {{ date.strftime('%Y-%m-%d') }} year={{ y }} extra={{ extra }}\n##\n"
              "## ^ = [[{{ y }}/{{ (date - dt.timedelta(days=1)).strftime('%Y%m%d') }}]]\n\n- first {{ extra }}\n\n",
     "done": "# template for done logs\n\n## Done log extra={{ extra }}\n\n\n",
     "any": "# catch-all template\n\n## Any page extra={{ extra }}\n\n- any\n\n",
     "proj": "# project template\n\n## Project {{ name }} extra={{ extra }}\n\n- proj {{ name }}\n\n",
+    "tail": "# unanchored-pattern template\n\n## Tail page extra={{ extra }}\n\n- tail\n\n",
     "explicit": "# explicit template\n\n## Explicit extra={{ extra }}\n\n\n",
 }
 
